@@ -1409,12 +1409,12 @@ func main() {
 	}
 
 	// generated: previous session present / absent x key sizes; the first cases are also really killed
-	n := c.N(10, 160)
-	kills := c.N(3, 24)
+	n := c.N(10, 48)
+	kills := c.N(3, 8)
 	for i := 0; i < n; i++ {
 		keyLen := []int{256, 0, 8, 256, 64, 1}[i%6]
 		in := caseIn{HasOld: i%2 == 0, New: genData(c.Rng, keyLen), Kill: i < kills}
-		if i < c.N(4, 40) {
+		if i < c.N(4, 12) {
 			// two-step: after a crash of this save, a shorter and a longer session are saved
 			in.Next = []*session.Data{genData(c.Rng, 0), genData(c.Rng, 300+c.Rng.Intn(200))}
 		}
